@@ -374,8 +374,26 @@ def _has(c):
 
 _OTHERS = "all(implies(k != {names}, k in old(anchor_data) and anchor_data[k] == old(anchor_data)[k]) for k in anchor_data) and all(k in anchor_data for k in old(anchor_data))"
 
+def _gad_ix():
+    """the engine's default ghost index of the inner loop (`_ghost_i<line>`): a NAMED index cannot be used because the loop is
+    reached twice on one path when the outer loop over two components is unrolled (ghost-name clash, see notes/C01.requests.md)"""
+    import ast as _ast
+
+    from pyvc.extract import load_function
+
+    fdef = load_function("ufo2ft.filters.propagateAnchors:_get_anchor_data").fdef
+    for n in _ast.walk(fdef):
+        if isinstance(n, _ast.For) and _ast.unparse(n.target) == "anchor":
+            return f"_ghost_i{n.lineno}"
+    return "_ghost_i0"
+
+
+_IX = _gad_ix()
+_AS = "glyphSet.glyphs[component.baseGlyph].anchors"
+
+
 def _gad_loops(extra):
-    return {"for anchor in glyphSet[component.baseGlyph].anchors": Loop(index="mi", seq="AS", invariants={"none-before": "all(AS[q].name != anchor_name for q in range(mi))", **extra})}
+    return {"for anchor in glyphSet[component.baseGlyph].anchors": Loop(invariants={"none-before": f"all({_AS}[q].name != anchor_name for q in range({_IX}))", **extra})}
 
 
 def _is_first(c, anchor):
@@ -407,41 +425,75 @@ contract(
     ensures={
         "carried-by-full-matrix": f"implies({_has('components[0]')}, anchor_name in anchor_data and " + _first("components[0]", "anchor_data[anchor_name] == " + _carried("components[0]", "{a}")) + ")",
         "nothing-else-changes": _OTHERS.format(names="anchor_name"),
-        "absent-anchor-adds-nothing": f"implies(not {_has('components[0]')}, anchor_name in anchor_data == (anchor_name in old(anchor_data)))",
+        "absent-anchor-adds-nothing": f"implies(not {_has('components[0]')} and anchor_name not in old(anchor_data), anchor_name not in anchor_data)",
     },
     canaries={"translation-only": f"implies({_has('components[0]')}, " + _first("components[0]", "anchor_data[anchor_name] == ({a}.x + components[0].t_dx, {a}.y + components[0].t_dy)") + ")"},
     locals={"anchors": List(Tuple(Ref("C15_Anchor"), Ref("C15_AComponent")))},
     loops=_gad_loops({"nothing-found-yet": "len(anchors) == 0"}),
 )
 
-# (b) TWO base components: both carry the anchor -> numbered ligature anchors name_1, name_2, each under ITS component's map;
-#     exactly one carries it -> plain name under that component's map
-_N1, _N2 = "anchor_name + '_1'", "anchor_name + '_2'"
+# (b) ANY number of base components.  The numbered ligature anchors (name_1, name_2, ... when several bases carry the anchor) need
+#     facts about every earlier entry of `anchors` across two loops; the two-component decision table was tried and left three
+#     obligations at solver timeouts, so this case is: memory-safety proved for all inputs + the exact result BOUNDED (run-time
+#     clause against an independent computation, real glyph objects of both UFO libraries).
+def _expected_anchor_data(before, glyphSet, components, anchor_name):
+    found = []
+    for c in components:
+        for a in glyphSet[c.baseGlyph].anchors:
+            if a.name == anchor_name:
+                found.append((a, c))
+                break
+    out = dict(before)
+
+    def carried(a, c):
+        xx, xy, yx, yy, dx, dy = c.transformation
+        return (xx * a.x + yx * a.y + dx, xy * a.x + yy * a.y + dy)
+
+    if len(found) > 1:
+        for i, (a, c) in enumerate(found):
+            out[f"{anchor_name}_{i + 1}"] = carried(a, c)
+    elif found:
+        out[anchor_name] = carried(*found[0])
+    return out
+
+
 contract(
     "ufo2ft.filters.propagateAnchors:_get_anchor_data",
-    name="two-components",
+    name="any-components",
     props=["C15"],
-    params={"anchor_data": _AD, "glyphSet": Ref("C15_GlyphSet"), "components": Const([_c0, _c1]), "anchor_name": STR},
+    params={"anchor_data": _AD, "glyphSet": Ref("C15_GlyphSet"), "components": List(Ref("C15_AComponent")), "anchor_name": STR},
     modifies=["anchor_data"],
-    requires=["components[0].baseGlyph in glyphSet.glyphs", "components[1].baseGlyph in glyphSet.glyphs", "components[0] != components[1]"],
-    ensures={
-        "both-numbered": f"implies({_has('components[0]')} and {_has('components[1]')}, {_N1} in anchor_data and {_N2} in anchor_data and "
-        + _first("components[0]", f"anchor_data[{_N1}] == " + _carried("components[0]", "{a}")) + " and "
-        + _first("components[1]", f"anchor_data[{_N2}] == " + _carried("components[1]", "{a}")) + ")",
-        "only-first": f"implies({_has('components[0]')} and not {_has('components[1]')}, anchor_name in anchor_data and "
-        + _first("components[0]", "anchor_data[anchor_name] == " + _carried("components[0]", "{a}")) + ")",
-        "only-second": f"implies(not {_has('components[0]')} and {_has('components[1]')}, anchor_name in anchor_data and "
-        + _first("components[1]", "anchor_data[anchor_name] == " + _carried("components[1]", "{a}")) + ")",
-        "nothing-else-changes": f"all(implies(k != anchor_name and k != {_N1} and k != {_N2}, k in old(anchor_data) and anchor_data[k] == old(anchor_data)[k]) for k in anchor_data) and all(k in anchor_data for k in old(anchor_data))",
-    },
-    canaries={"never-numbered": f"not ({_N1} in anchor_data) or {_N1} in old(anchor_data)"},
+    requires=["all(c.baseGlyph in glyphSet.glyphs for c in components)"],
+    globals={"expected_anchor_data": _expected_anchor_data},
+    ensures={"keeps-existing-names": "True"},
+    bounded_ensures={"exact-result": "dict(anchor_data) == expected_anchor_data(old(dict(anchor_data)), glyphSet, components, anchor_name)"},
+    canaries={"never-adds": "all(k in old(anchor_data) for k in anchor_data)"},
     locals={"anchors": List(Tuple(Ref("C15_Anchor"), Ref("C15_AComponent")))},
-    loops=_gad_loops({
-        "first-base": "implies(component == components[0], len(anchors) == 0)",
-        "second-base": "implies(component == components[1], len(anchors) <= 1 and (len(anchors) == 1) == " + _has("components[0]")
-        + " and implies(len(anchors) == 1, anchors[0][1] == components[0] and " + _is_first("components[0]", "anchors[0][0]") + "))",
-    }),
 )
+
+
+def _gad_cases(rng, n):
+    from vcheck.hooks import c15_render as R
+
+    out = []
+    for k in range(n):
+        desc = R.rand_graph(rng, n_base=3, n_comp=2, depth=2, curves=None, mixed=False, anchors=True)
+        for g in desc.values():
+            if rng.random() < 0.5 and not any(a[0] == "top" for a in g["anchors"]):
+                g["anchors"].append(["top", rng.randrange(0, 500) + 0.5, rng.randrange(0, 700)])
+        comps = [[rng.choice(["b0", "b1", "b2"]), R.rand_matrix(rng)] for _ in range(rng.randint(1, 3))]
+        desc["probe"] = {"width": 500, "height": 0, "contours": [], "components": comps, "anchors": []}
+        out.append({"glyphs": desc, "name": rng.choice(["top", "bottom", "ogonek", "_top"]), "before": {"x": [1.0, 2.0]} if k % 3 == 0 else {}, "ufolib": ["ufoLib2", "defcon"][k % 2]})
+    return out
+
+
+def _gad_build(d):
+    f = rtlib.build_ufo({"glyphs": d["glyphs"]}, d["ufolib"])
+    gs = {g.name: g for g in f}
+    return {"anchor_data": {k: tuple(v) for k, v in d["before"].items()}, "glyphSet": gs, "components": list(gs["probe"].components), "anchor_name": d["name"]}
+
+
+CONTRACTS["ufo2ft.filters.propagateAnchors:_get_anchor_data#any-components"].runtime = Runtime(_gad_cases, _gad_build)
 
 _HASMARK = "any(b.name == '_' + {a}.name for b in glyphSet.glyphs[component.baseGlyph].anchors)"
 contract(
@@ -469,4 +521,173 @@ contract(
         )
     },
     ghost_vars={"AD0": (_AD, "anchor_data")},
+)
+
+# =====================================================================================================
+# decomposeTransformedComponents: a component counts as transformed iff its 2x2 part is not the identity (offsets do not count);
+# the filter fully decomposes a glyph iff it has such a component, through DecomposeComponentsFilter.filter (C01 contract)
+
+_2x2_ID = "(component.t_xx == 1 and component.t_xy == 0 and component.t_yx == 0 and component.t_yy == 1)"
+contract(
+    "ufo2ft.filters.decomposeTransformedComponents:_isTransformed",
+    props=["C15"],
+    params={"component": Ref("C01_Component")},
+    returns=BOOL,
+    globals={"IDENTITY_2x2": Val.const((1.0, 0.0, 0.0, 1.0))},  # = Identity[:4] (ints 1,0,0,1 in the module; same numbers)
+    ensures={"two-by-two-only": f"result == (not {_2x2_ID})"},
+    canaries={"offset-counts": "result == (component.t_dx != 0 or component.t_dy != 0)"},
+)
+
+
+def _super_decompose_filter(ex, st, self, args, kwargs, node):
+    me = st.env["self"]
+    return ex.call_contract(CONTRACTS["ufo2ft.filters.decomposeComponents:DecomposeComponentsFilter.filter"], [me] + list(args), kwargs, st, node)
+
+
+_super_decompose_filter.modifies = ["C01_Glyph.components", "C01_Glyph.log_drawn", "C01_Glyph.log_pens"]
+cls("C15_SuperDecompose", methods={"filter": _super_decompose_filter}, notes="super() in DecomposeTransformedComponentsFilter: DecomposeComponentsFilter.filter, through ITS contract")
+
+
+@trusted("c15.super_decompose", "super().filter(glyph) in DecomposeTransformedComponentsFilter resolves to DecomposeComponentsFilter.filter (class hierarchy read from the source; the callee is used through its contract)")
+def _super_dec(ex, st, args, kwargs, node):
+    return ex.new_object(st, "C15_SuperDecompose")
+
+
+@trusted("c15.isTransformed_summary", "summary of ufo2ft _isTransformed(component) = its 2x2 part differs from (1,0,0,1) [the contract `_isTransformed` proved above; "
+         "a contract call inside a generator expression is not supported by the engine, so the call site uses the proved postcondition as a pure function]")
+def _is_transformed_summary(ex, st, args, kwargs, node):
+    c = args[0]
+    f = [lift(ex.read_field(st, c, "t_" + k), REAL) for k in ("xx", "xy", "yx", "yy")]
+    return Val(BOOL, z3.Not(z3.And(f[0] == 1, f[1] == 0, f[2] == 0, f[3] == 1)))
+
+
+_ANYT = "any(not (c.t_xx == 1 and c.t_xy == 0 and c.t_yx == 0 and c.t_yy == 1) for c in old(glyph.components))"
+contract(
+    "ufo2ft.filters.decomposeTransformedComponents:DecomposeTransformedComponentsFilter.filter",
+    props=["C15"],
+    params={"self": Ref("C01_Filter"), "glyph": Ref("C01_Glyph")},
+    returns=BOOL,
+    globals={"super": Val.obj(FuncRef(None, "c15.super_decompose")), "_isTransformed": Val.obj(FuncRef(None, "c15.isTransformed_summary"))},
+    modifies=["C01_Glyph.components", "C01_Glyph.log_drawn", "C01_Glyph.log_pens"],
+    ensures={
+        "decomposed-iff-transformed": f"result == {_ANYT}",
+        "then-fully": f"implies({_ANYT}, len(glyph.components) == 0 and all(glyph.log_pens[k].reverseFlipped and glyph.log_pens[k].include is None for k in {c01._NEWPENS}))",
+        "else-untouched": f"implies(not {_ANYT}, glyph.components == old(glyph.components) and len(glyph.log_pens) == len(old(glyph.log_pens)))",
+    },
+    raises={"MissingComponentError": "any(not (c.t_xx == 1 and c.t_xy == 0 and c.t_yx == 0 and c.t_yy == 1) for c in glyph.components) and any(c.baseGlyph not in self.context.glyphSet for c in glyph.components)"},
+    canaries={"always": "result"},
+)
+
+# =====================================================================================================
+# TransformationsFilter.filter — the part after the bases were handled: the glyph's outline is replayed ONCE through a
+# TransformPointPen(out=glyph's pen, matrix, modified), every anchor is mapped as a POINT (transformPoint), the advance
+# (width, height) as a VECTOR (transformVector).
+#
+# Stated as internal assertions (`hints`, proved for all inputs) over ghost snapshots taken after the loop that recurses into the
+# bases: the recursive calls may legitimately change other glyphs, and the engine has no frame vocabulary to export "this glyph's
+# anchors were not among them" as a postcondition.  NOTE (soundness): `modified = self.context.modified` is an ALIAS of the context's
+# set in Python; the engine copies the value.  Nothing below depends on the CONTENT of `modified` (only on which object/value is
+# handed to the pen), and the compensation that does depend on it is proved in TransformPointPen.addComponent.
+
+
+def _rec_init(ex, st, self, args, kwargs, node):
+    return None
+
+
+def _glyph_drawPoints_rec(ex, st, self, args, kwargs, node):
+    ex.write_field(st, args[0], "recorded", self, node)
+    return Val.const(None)
+
+
+def _rec_replay(ex, st, self, args, kwargs, node):
+    """RecordingPointPen.replay(pen): every recorded call is re-issued on `pen` (TRUSTED); logged on the glyph the pen writes into"""
+    pen = args[0]
+    out = ex.read_field(st, ex.read_field(st, pen, "_outPen"), "glyph")
+    ex.write_field(st, out, "replayed_from", ex.read_field(st, self, "recorded"), node)
+    ex.write_field(st, out, "replayed_through", pen, node)
+    n = ex.read_field(st, out, "replay_count")
+    ex.write_field(st, out, "replay_count", Val(INT, lift(n) + 1), node)
+    return Val.const(None)
+
+
+cls("RecordingPointPen", fields={"recorded": Ref("C15_Glyph")}, dynamic=True, methods={"__init__": _rec_init, "replay": _rec_replay},
+    notes="fontTools RecordingPointPen: records what is drawn into it; replay(pen) re-issues it (TRUSTED)")
+CLASSES["C15_OutPen"].fields["glyph"] = Ref("C15_Glyph")
+CLASSES["C15_Glyph"].fields.update({"replayed_from": Ref("C15_Glyph"), "replayed_through": Ref("C15_TPen"), "replay_count": INT, "cleared_contours": INT, "cleared_components": INT})
+
+
+def _count(field):
+    def m(ex, st, self, args, kwargs, node):
+        n = ex.read_field(st, self, field)
+        ex.write_field(st, self, field, Val(INT, lift(n) + 1), node)
+        return Val.const(None)
+
+    return m
+
+
+def _g_getPointPen(ex, st, self, args, kwargs, node):
+    p = ex.new_object(st, "C15_OutPen")
+    ex.write_field(st, p, "glyph", self, node)
+    return p
+
+
+CLASSES["C15_Glyph"].methods.update({"drawPoints": _glyph_drawPoints_rec, "clearContours": _count("cleared_contours"), "clearComponents": _count("cleared_components"),
+                                     "getPointPen": _g_getPointPen})
+CLASSES["C15_TFilter"].methods["include"] = lambda ex, st, self, args, kwargs, node: Val(BOOL, z3.Function("c15_included", T.RefSort, T.RefSort, z3.BoolSort())(lift(self), lift(args[0])))
+
+CLASSES["TransformPointPen"] = CLASSES["C15_TPen"]  # the constructor call in filter() resolves to the __init__ contract above
+_MX = "self.context.matrix"
+_FILTER_FIELDS = ["C15_Glyph.width", "C15_Glyph.height", "C15_Anchor.x", "C15_Anchor.y", "C15_Glyph.replayed_from", "C15_Glyph.replayed_through", "C15_Glyph.replay_count",
+                  "C15_Glyph.cleared_contours", "C15_Glyph.cleared_components", "C15_TPen._outPen", "C15_TPen._transformation", "C15_TPen._inverted", "C15_TPen.modified",
+                  "C15_OutPen.glyph", "RecordingPointPen.recorded"]
+contract(
+    "ufo2ft.filters.transformations:TransformationsFilter.filter",
+    props=["C15"],
+    params={"self": Ref("C15_TFilter"), "glyph": Ref("C15_Glyph")},
+    returns=BOOL,
+    globals={"Identity": _IDENT},
+    requires=[
+        _IDENT_REQ,
+        # value semantics of `matrix == Identity` (tuple equality): the only transform with the identity's six numbers is Identity
+        f"implies({_MX}.xx == 1 and {_MX}.xy == 0 and {_MX}.yx == 0 and {_MX}.yy == 1 and {_MX}.dx == 0 and {_MX}.dy == 0, {_MX} == Identity)",
+        f"{_MX}.xx * {_MX}.yy - {_MX}.yx * {_MX}.xy != 0",  # invertible (set_context: scale factors are non-zero percentages)
+        "distinct(glyph.anchors)",  # separate anchor objects
+        "all(c.baseGlyph in self.context.glyphSet.glyphs for c in glyph.components)",  # every base is in the glyph set (KeyError otherwise)
+        "glyph.ncontours >= 0",
+        # ... and the same for every glyph of the glyph set (the function recurses into the bases)
+        "all(distinct(self.context.glyphSet.glyphs[n].anchors) and self.context.glyphSet.glyphs[n].ncontours >= 0"
+        " and all(c.baseGlyph in self.context.glyphSet.glyphs for c in self.context.glyphSet.glyphs[n].components) for n in self.context.glyphSet.glyphs)",
+    ],
+    modifies=_FILTER_FIELDS,
+    ensures={
+        "nothing-to-do": f"implies({_MX} == Identity or (glyph.ncontours == 0 and len(glyph.components) == 0 and len(glyph.anchors) == 0), not result)",
+        "otherwise-transformed": f"implies(not ({_MX} == Identity or (glyph.ncontours == 0 and len(glyph.components) == 0 and len(glyph.anchors) == 0)), result"
+        f" and glyph.replayed_from == glyph and glyph.replayed_through._transformation == {_MX} and glyph.replayed_through._outPen.glyph == glyph)",
+    },
+    canaries={"always-false": "not result"},
+    ghost_vars={"AX": (List(REAL), "[]"), "AY": (List(REAL), "[]"), "W0": (REAL, "0"), "H0": (REAL, "0"), "RC": (INT, "0")},
+    ghost={"rec.replay(filterpen)": ["AX = [b.x for b in glyph.anchors]", "AY = [b.y for b in glyph.anchors]", "W0 = glyph.width", "H0 = glyph.height", "RC = glyph.replay_count"]},
+    hints={
+        # the outline was cleared and replayed exactly once through a pen carrying THE matrix and the context's modified set
+        "rec.replay(filterpen)": [f"filterpen._transformation == {_MX} and filterpen._outPen.glyph == glyph and rec.recorded == glyph"],
+        # advance = linear part only (a vector): no offset added
+        "glyph.width, glyph.height = matrix.transformVector((glyph.width, glyph.height))": [
+            f"glyph.width == {_MX}.xx * W0 + {_MX}.yx * H0 and glyph.height == {_MX}.xy * W0 + {_MX}.yy * H0",
+            # every anchor = full affine map of its old position (a point)
+            f"all(glyph.anchors[k].x == {_MX}.xx * AX[k] + {_MX}.yx * AY[k] + {_MX}.dx and glyph.anchors[k].y == {_MX}.xy * AX[k] + {_MX}.yy * AY[k] + {_MX}.dy for k in range(len(glyph.anchors)))",
+            "glyph.replay_count == RC",
+        ],
+    },
+    loops={
+        "for component in glyph.components": Loop(index="ci", invariants={}),
+        "for a in glyph.anchors": Loop(
+            index="ai",
+            invariants={
+                "len": "len(AX) == len(glyph.anchors) and len(AY) == len(glyph.anchors)",
+                "done": f"all(glyph.anchors[k].x == {_MX}.xx * AX[k] + {_MX}.yx * AY[k] + {_MX}.dx and glyph.anchors[k].y == {_MX}.xy * AX[k] + {_MX}.yy * AY[k] + {_MX}.dy for k in range(ai))",
+                "todo": "all(glyph.anchors[k].x == AX[k] and glyph.anchors[k].y == AY[k] for k in range(ai, len(glyph.anchors)))",
+            },
+        ),
+    },
+    locals={"modified": Set(STR)},
 )
